@@ -18,7 +18,10 @@ RULE = ("Registries of 0..6 services (5 type spellings incl. a subtype and an up
         "names, host names, their re-cased spellings, names unregistered earlier, never-registered names, the enumeration name} x "
         "{PTR,A,AAAA,SRV,TXT,ANY,NSEC,99}, random 2..4-question queries, and known-answer lists with TTL just below/at/above half "
         "and full; evaluated by the real QueryHandler.async_response and, for a sample, by injecting the datagram and reading "
-        "the replies off the simulated wire. Oracle: ResponderModel (vlib/models.py). Distinct = (question type, name relation, "
+        "the replies off the simulated wire. Oracle: ResponderModel (vlib/models.py). Plus 'update races': a QM query 1..900 ms "
+        "before async_update_service / async_unregister_service (answer still queued for aggregation or the one-second "
+        "protection when the registry changes): nothing that leaves the host after the change may carry the replaced SRV/TXT "
+        "with a positive TTL. Distinct = (question type, name relation, "
         "known-answer boundary, registry-op history class, path) tuples.")
 ASSUMPTIONS = ["NSEC owner name is compared per service (the library names it after the instance)",
                "ANY on host names and NSEC known answers: soundness only (outside the completeness claim)"]
@@ -27,7 +30,8 @@ QTYPES = [12, 1, 28, 33, 16, 255, 47, 99]
 
 def floors(tier):
     q = tier == "quick"
-    return {"c03.answers": 200000 if q else 15000000, "c03.additionals": 30000 if q else 2000000, "c03.wire": 1500 if q else 150000}
+    return {"c03.answers": 200000 if q else 15000000, "c03.additionals": 30000 if q else 2000000, "c03.wire": 1500 if q else 150000,
+            "c03.wire.update_race": 2000 if q else 250000}
 
 
 def plan(tier, seed):
@@ -316,6 +320,71 @@ def run_history(res: Result, seed: int, n_ops: int, wire_n: int) -> None:
             res.violation("c03.answers", "loop_exception", repr(sim.net.escapes[0])[:800], {}, {"seed": seed, "ops": run.ops})
 
 
+def run_update_race(res: Result, seed: int) -> None:
+    """'After a service is updated or unregistered replies reflect only the new state': a QM query arrives shortly *before*
+    async_update_service / async_unregister_service, so its answer is still waiting in the aggregation (20..500 ms) or the
+    protected (1 s) queue when the registry changes.  Whatever leaves the host after the change must not carry the replaced
+    SRV/TXT records (records whose rdata differs from the new registration) with a positive TTL."""
+    from ..models import Svc
+    rng = random.Random(seed)
+    res.evaluations += 1
+    T = "_http._tcp.local."
+    old = Svc(T, "race." + T, "race-host.local.", 8080, b"\x03a=1", [b"\x0a\x00\x00\x05"], [], 120, 4500)
+    change = rng.choice(["txt", "port", "both"])
+    new = Svc(T, "race." + T, "race-host.local.", 8080 if change == "txt" else 9090, b"\x03a=1" if change == "port" else b"\x03a=2", [b"\x0a\x00\x00\x05"], [], 120, 4500)
+    gap = rng.choice([300.0, 700.0, 1500.0, 3000.0])         # last announcement ... query (below 1000: protected queue)
+    delta = rng.choice([1.0, 5.0, 15.0, 50.0, 100.0, 119.0, 200.0, 450.0, 900.0])     # query ... update
+    qkind = rng.choice(["ptr", "txt", "srv", "any", "multi"])
+    api = rng.choice(["update", "update", "unregister"])
+    desc = {"update_race": True, "change": change, "gap": gap, "delta": delta, "question": qkind, "api": api}
+
+    def viol(kind: str, detail: str, **sig: Any) -> None:
+        res.violation("c03.wire", kind, detail, dict(sig, family="update_race"), {"seed": seed, "update_race": True, "scenario": desc})
+
+    out: Dict[str, Any] = {}
+    with simnet.Sim(seed & 0xFFFF) as sim:
+        async def main():
+            host = sim.net.add_host("H", "10.0.0.1", None, layout=rng.choice(["single", "split"]))
+            azc = await sim.start_host(host)
+            zc = azc.zeroconf
+            info_old = R.make_info(old)
+            t = await zc.async_register_service(info_old, cooperating_responders=True)
+            await t
+            await sim.sleep_ms(gap)
+            qs = {"ptr": [(T, 12, False)], "txt": [(old.name, 16, False)], "srv": [(old.name, 33, False)], "any": [(old.name, 255, False)],
+                  "multi": [(T, 12, False), (old.name, 16, False)]}[qkind]
+            sim.net.inject_now(host, R.build_query(qs, id_=7), ("10.0.0.50", 5353))
+            await sim.sleep_ms(delta)
+            out["U"] = sim.now_ms()
+            out["mark"] = len(sim.net.trace)
+            if api == "update":
+                t = await zc.async_update_service(R.make_info(new))
+            else:
+                t = await zc.async_unregister_service(info_old)
+            await t
+            await sim.sleep_ms(2500)
+            await azc.async_close()
+        try:
+            sim.run(main())
+        except Exception as e:
+            viol("exception", "exception during update race: %r\n%s" % (e, tb()), exc_type=type(e).__name__)
+            return
+    res.mon("c03.wire")
+    res.mon("c03.wire.update_race")
+    gone = {old.srv(), old.txt()} - ({new.srv(), new.txt()} if api == "update" else set())
+    for e in sim.net.trace[out["mark"]:]:
+        m = wire.parse(e["data"], strict=True)
+        if not m.is_response:
+            continue
+        for r in m.answers + m.additionals:
+            ident = R.ident_of_wire(r)
+            if r.ttl > 0 and ident in gone:
+                viol("reply_reflects_old_state", "%s issued %.0f ms after a %s query arrived: %r (replaced by the %s) left the host with ttl %d %.0f ms after the change" % (
+                    api, delta, qkind, ident, api, r.ttl, e["t"] - out["U"]), api=api, kind_of_record=ident[0])
+                break
+    res.cls("update_race", api, change, qkind, "gap=%d" % gap, "delta=%d" % delta)
+
+
 def run_shard(spec):
     res = Result()
     rng = rng_for("c03", spec["seed"], spec["shard"])
@@ -323,10 +392,15 @@ def run_shard(spec):
         seed = rng.randrange(1 << 30)
         run_history(res, seed, n_ops=rng.choice([3, 6, 12]), wire_n=2)
         res.extra["histories"] = res.extra.get("histories", 0) + 1
+        for _k in range(4):
+            run_update_race(res, rng.randrange(1 << 30))
     return res
 
 
 def replay(blob):
     res = Result()
+    if blob.get("update_race"):
+        run_update_race(res, blob["seed"])
+        return res
     run_history(res, blob["seed"], 12, 2)
     return res
